@@ -26,7 +26,7 @@ META = {
                   "codecs.codec / graph.static_order (routine and graph caches)", "typelib.py.inspection.* (per-predicate caches)",
                   "Delayed*._resolved", "typelib.ctx.TypeContext.__missing__ (alias memo)", "typelib.api.encode/decode/marshal/unmarshal"],
     "bounds": {
-        "quick": "all sequences of length <= 3 over an alphabet of 25 operation instances (21 fixed, among them the same reference text issued from two modules, + 4 seed-rotated from 49), and all ordered pairs over the whole alphabet of 70 instances + 3 special steps: "
+        "quick": "all sequences of length <= 3 over an alphabet of 25 operation instances (21 fixed, among them the same reference text issued from two modules, + 4 seed-rotated from 49), and all ordered pairs over the whole alphabet of 76 instances + 3 special steps: "
                  "marshal / unmarshal / encode / decode / strload / isoformat on pools of equal-but-distinct operands (both member orders "
                  "of one union, equal instants with different offsets, 1 / 1.0 / True, the same text as str / bytes), build-routine ops, "
                  "deep-mutate the previous result, deep-mutate the previous input, clear caches",
@@ -115,6 +115,30 @@ class Op:
         self.variant = variant if variant is not None else name
 
 
+_NY = None
+_MM = []
+
+
+def _fold(f):
+    global _NY
+    import zoneinfo
+
+    if _NY is None:
+        _NY = zoneinfo.ZoneInfo("America/New_York")
+    return datetime.datetime(2020, 11, 1, 1, 30, tzinfo=_NY, fold=f)
+
+
+def _view(content: bytes):
+    """The same read-only memoryview object every time, over an anonymous mmap whose bytes are rewritten first."""
+    import mmap
+
+    if not _MM:
+        mm = mmap.mmap(-1, 9)
+        _MM.extend([mm, memoryview(mm).toreadonly()])
+    _MM[0][:] = content
+    return _MM[1]
+
+
 def _ops():
     import typelib
     from typelib import serdes
@@ -128,6 +152,8 @@ def _ops():
         variant = None
         if klass == "union_order":
             variant = "str,int" if ("Union[str,int]" in name) else "int,str"
+        if "fold=" in name:
+            variant = name.split("fold=")[1][0]
         if klass == "string_ref":
             variant = "mod_b" if "mod_b" in name else "mod_a"
         return Op(name, klass, mk, run, variant)
@@ -210,6 +236,14 @@ def _ops():
         op("codec(Optional[str]).decode('\"x\"')", "text", lambda: b'"x"', lambda x: typelib.codec(t.Optional[str]).decode(x)),
         op("codec(Optional[str]).decode('null')", "text", lambda: b"null", lambda x: typelib.codec(t.Optional[str]).decode(x)),
         op("unmarshal(Union[int,str],memoryview)", "union_order", lambda: memoryview(b"twelve"), lambda x: typelib.unmarshal(U1, x)),
+        # two instants that compare and hash equal: the repeated hour at the end of daylight saving time (fold 0 / 1)
+        op("unmarshal(float,01:30 fold=0)", "equal_instant", lambda: _fold(0), lambda x: typelib.unmarshal(float, x)),
+        op("unmarshal(float,01:30 fold=1)", "equal_instant", lambda: _fold(1), lambda x: typelib.unmarshal(float, x)),
+        op("unmarshal(int,01:30 fold=1)", "equal_instant", lambda: _fold(1), lambda x: typelib.unmarshal(int, x)),
+        # one read-only view object over a buffer whose content changes between the calls
+        op("unmarshal(list[int],view of '[1, 2, 3]')", "text", lambda: _view(b"[1, 2, 3]"), lambda x: typelib.unmarshal(list[int], x)),
+        op("unmarshal(list[int],same view, now '[7, 8, 9]')", "text", lambda: _view(b"[7, 8, 9]"), lambda x: typelib.unmarshal(list[int], x)),
+        op("unmarshal(Gain,'0')", "text", lambda: "0", lambda x: typelib.unmarshal(M.Gain, x)),
     ]
     return core, pool
 
